@@ -226,6 +226,19 @@ func init() {
 				complete = complete && done
 				r.Extra["wide_domain_L_completed"] = L
 			}
+			// table dimension: every ordered triple of features over a ten-location menu x every i x n in {1,2} x {insert, embed}
+			if complete {
+				L, tables := multiTables()
+				done := r.ParallelFor(len(tables)*(L+1), func(idx int) {
+					t, i := tables[idx/(L+1)], idx%(L+1)
+					for n := 1; n <= 2; n++ {
+						eval(c02Case{Op: "insert", L: L, Locs: t, I: i, N: n}, true)
+						eval(c02Case{Op: "embed", L: L, Locs: t, I: i, N: n, Guest: []string{"R(0,1,0)"}}, true)
+					}
+				})
+				complete = complete && done
+				r.Extra["three_feature_tables"] = len(tables)
+			}
 			// part-count dimension: structured locations of 6..12 (thorough 20) parts x every i x n in {1,2} x {insert, embed}
 			maxParts := 12
 			if r.Tier == "thorough" {
